@@ -3,9 +3,13 @@
 package checks
 
 import (
+	"bytes"
 	"fmt"
 	"os"
+	"os/exec"
 	"reflect"
+	"syscall"
+	"time"
 	"runtime/debug"
 	"strings"
 
@@ -138,3 +142,34 @@ func plainOnly(quick, thorough int) func(string) []BuildPlan {
 }
 
 func wireCanon(b []byte) ([]byte, error) { return wire.Canon(b) }
+
+// runSub runs the worker binary in -sub mode with a generous wall-clock limit.
+// hung reports that the limit fired (the child is killed with SIGQUIT so that its
+// goroutine dump lands in stderr).
+func runSub(spec string, env []string, limit time.Duration) (stdout, stderr []byte, err error, hung bool) {
+	exe, _ := os.Executable()
+	cmd := exec.Command(exe, "-sub", spec)
+	if env != nil {
+		cmd.Env = env
+	}
+	var out, errb bytes.Buffer
+	cmd.Stdout, cmd.Stderr = &out, &errb
+	if err = cmd.Start(); err != nil {
+		return nil, nil, err, false
+	}
+	done := make(chan error, 1)
+	go func() { done <- cmd.Wait() }()
+	select {
+	case err = <-done:
+	case <-time.After(limit):
+		hung = true
+		cmd.Process.Signal(syscall.SIGQUIT)
+		select {
+		case err = <-done:
+		case <-time.After(10 * time.Second):
+			cmd.Process.Kill()
+			err = <-done
+		}
+	}
+	return out.Bytes(), errb.Bytes(), err, hung
+}
